@@ -7,6 +7,7 @@ mod known;
 mod props;
 mod refax;
 mod refsc;
+mod script;
 
 use case::*;
 use dsl::*;
@@ -32,6 +33,7 @@ fn main() {
             driver::worker_main();
             0
         }
+        Some("subrun") => script::subrun_main(),
         Some("run") => {
             let prop = args.get(2).expect("property id");
             let tier = tier_of(args.get(3).map(|s| s.as_str()).unwrap_or("quick"));
